@@ -121,7 +121,7 @@ def make_case(rng):
     cls = {}
     extra = []
     # time step
-    ts, tsv, cls['timestep'] = gen_float_kw(rng, ['0.01', '1', '1e-3', '0.5', '2.0E-2'])
+    ts, tsv, cls['timestep'] = gen_float_kw(rng, ['0.01', '1', '1e-3', '0.5', '2.0E-2', '0', '0.0'])
     tt, ttv, cls['timeticks'] = gen_float_kw(rng, ['100', '10', '1000', '250.0'])
     if rng.random() < 0.5:
         tt, ttv, cls['timeticks'] = None, None, 'absent'
@@ -148,8 +148,8 @@ def make_case(rng):
         extra.append(('CREATOR', creator))
     pnv, png, pns, volt, gain, lab = [], [], [], [], [], []
     for i in range(1, D + 1):
-        v, vv, c = gen_float_kw(rng, ['450', '450.5', '600', '1e2'])
-        g, gv, c2 = gen_float_kw(rng, ['1', '2.5', '16', '0.5'])
+        v, vv, c = gen_float_kw(rng, ['450', '450.5', '600', '1e2', '0', '0.0'])
+        g, gv, c2 = gen_float_kw(rng, ['1', '2.5', '16', '0.5', '0', '0.0'])
         pnv.append(v)
         png.append(g)
         bw = None
